@@ -117,11 +117,30 @@ fn check_avg(cells: &[SqlValue], v: &SqlValue) {
         }
     }
 }
-fn check_min_max(cells: &[SqlValue], v: &SqlValue) {
-    if non_null(cells) == 0 {
-        assert!(v.is_null(), "MIN/MAX over no non-NULL value is NULL");
-    } else {
-        assert!(!v.is_null(), "MIN/MAX of some value is that value");
+fn extreme(cells: &[SqlValue], want_min: bool) -> Option<i128> {
+    let mut best: Option<i128> = None;
+    let mut i = 0;
+    while i < cells.len() {
+        if let Some(x) = exact(&cells[i]) {
+            best = match best {
+                None => Some(x),
+                Some(b) => Some(if (want_min && x < b) || (!want_min && x > b) { x } else { b }),
+            };
+        }
+        i += 1;
+    }
+    best
+}
+fn check_min(cells: &[SqlValue], v: &SqlValue) {
+    match extreme(cells, true) {
+        None => assert!(v.is_null(), "MIN over no non-NULL value is NULL"),
+        Some(m) => assert!(exact(v) == Some(m), "MIN is the least non-NULL value"),
+    }
+}
+fn check_max(cells: &[SqlValue], v: &SqlValue) {
+    match extreme(cells, false) {
+        None => assert!(v.is_null(), "MAX over no non-NULL value is NULL"),
+        Some(m) => assert!(exact(v) == Some(m), "MAX is the greatest non-NULL value"),
     }
 }
 
@@ -135,9 +154,11 @@ columnar!(c03_sum_int, Sum, [Integer], check_sum);
 columnar!(c03_sum_null_int, Sum, [Null, Integer], check_sum);
 columnar!(c03_avg_null, Avg, [Null], check_avg);
 columnar!(c03_avg_int_null, Avg, [Integer, Null], check_avg);
-columnar!(c03_min_null, Min, [Null], check_min_max);
-columnar!(c03_min_int, Min, [Integer], check_min_max);
-columnar!(c03_max_null_int, Max, [Null, Integer], check_min_max);
+columnar!(c03_min_null, Min, [Null], check_min);
+columnar!(c03_min_int, Min, [Integer], check_min);
+columnar!(c03_min_int_int, Min, [Integer, Integer], check_min);
+columnar!(c03_max_int_int, Max, [Integer, Integer], check_max);
+columnar!(c03_max_null_int, Max, [Null, Integer], check_max);
 columnar!(c03_avg_int, Avg, [Integer], check_avg);
 columnar!(c03_count_int_int, Count, [Integer, Integer], check_count);
 columnar!(c03_sum_int_int, Sum, [Integer, Integer], check_sum);
